@@ -237,6 +237,8 @@ func (r *RemoteList) unlockedSetHostnamesResults(hr *hostnamesResults) {
 	// Cancel any existing hostnamesResults DNS goroutine to release resources
 	r.hr.Cancel()
 	r.hr = hr
+	// the resolved addresses are part of the candidate list
+	r.shouldRebuild = true
 }
 
 // ResetForOwner zeros the reported address slices for the given owner and marks the addrs list dirty.
@@ -421,6 +423,8 @@ func (r *RemoteList) RefreshFromHandshake(vpnAddrs []netip.Addr) {
 	r.badRemotes = nil
 	r.vpnAddrs = make([]netip.Addr, len(vpnAddrs))
 	copy(r.vpnAddrs, vpnAddrs)
+	// previously blocked addresses are candidates again, and the DNS filter sees the new owner addresses
+	r.shouldRebuild = true
 	r.Unlock()
 }
 
@@ -428,6 +432,7 @@ func (r *RemoteList) RefreshFromHandshake(vpnAddrs []netip.Addr) {
 func (r *RemoteList) ResetBlockedRemotes() {
 	r.Lock()
 	r.badRemotes = nil
+	r.shouldRebuild = true
 	r.Unlock()
 }
 
